@@ -185,16 +185,10 @@ def classify_failure(l, table, code, info):
         if ep == "prof_stats" and tb in ("profiles", "profiles_series") and cn in ("no-ts-lower", "no-ts-upper", "no-date-lower"):
             return "profile-stats-whole-tables"
         return None
-    if ep.startswith("loki_") and tb in ("samples_v3", "metrics_15s") and cn in ("ts-lower-wide", "ts-upper-tight") and subsec:
-        return "loki-window-truncated-to-seconds"
-    if ep == "prof_render_diff" and tb == "profiles" and cn in ("ts-lower-wide", "ts-upper-tight") and subsec:
-        return "render-diff-window-truncated-to-seconds"
     if ep.startswith("loki_") and tb == "time_series" and cn in ("no-date-lower", "no-type") and 100 in info:
         return "label-filter-series-scan-unbounded"
     if ep.startswith("prom_") and tb == "time_series" and cn == "no-type" and 101 in info:
         return "prom-labels-fetch-untyped"
-    if ep in ("tempo_search_tags", "tempo_search_plain") and tb == "tempo_traces" and cn == "ts-lower-tight" and not subsec:
-        return "trace-search-start-exclusive"
     return None
 
 
@@ -266,9 +260,7 @@ def run_harness(ck, args, name):
 
 
 ALL_FINDINGS = ["tempo-tags-without-window", "trace-by-id-without-window", "profile-stats-whole-tables",
-                "loki-window-truncated-to-seconds", "render-diff-window-truncated-to-seconds",
-                "label-filter-series-scan-unbounded", "prom-labels-fetch-untyped",
-                "trace-search-start-exclusive"]
+                "label-filter-series-scan-unbounded", "prom-labels-fetch-untyped"]
 
 
 def report_known(ck, known, listed):
@@ -705,10 +697,6 @@ def run_prof_tie(ck, lines):
     items = []
     for i, l in enumerate(cases):
         f, t = l["from_ns"], l["to_ns"]
-        if l["ep"] == "prof_render_diff":
-            # ProfController.RenderDiff cuts the millisecond parameters to whole seconds (recorded finding
-            # render-diff-window-truncated-to-seconds): the planner context is built from the cut values
-            f, t = f // 10**9 * 10**9, t // 10**9 * 10**9
         db = re.search(r"`([^`]+)`\.", l["sql"])
         items.append('{| prc_id := %d; prc_ctx := prof_ctx %s %s %d %d; prc_req := %s; prc_sql := %s |}' % (
             i, "true" if l["cluster"] else "false", coq_string(db.group(1) if db else ""), f, t,
